@@ -9,4 +9,5 @@ MCTotals == {NoTotal, <<3,1>>, <<6,1>>, <<0,1>>}
 MCFactors == {<<1,1>>, <<3,2>>}
 MCBoundPairs == {<<<<0,1>>, INF>>, <<<<1,2>>, INF>>, <<<<0,1>>, <<2,1>>>>, <<<<1,1>>, <<1,1>>>>, <<<<1,2>>, <<2,1>>>>, <<<<0,1>>, <<1,2>>>>}
 MCBoundPairsSmall == {<<<<0,1>>, INF>>, <<<<1,2>>, INF>>, <<<<1,1>>, <<1,1>>>>, <<<<1,2>>, <<2,1>>>>}
+MCNone == {}
 ====
